@@ -268,6 +268,16 @@ def r1_decorator(program, rep):
     rep.check(okg and okpush, "C18-R1", qual(ga), "the stack is merged "
               "oldest to newest (entering appends; later updates win)",
               construct="stack merge order", node=ga)
+    r1_context_owns(program, rep)
+    rep.floor("C18-R1", 8)
+
+
+def r1_context_owns(program, rep):
+    """(also run by C17: the dictionary a caller hands to a controller is
+    not changed by later context updates)"""
+    if getattr(rep, "_ctx_owns_done", False):
+        return
+    rep._ctx_owns_done = True
     # a context owns its arguments: update_current_context() writes into
     # this dictionary, which therefore must not be the caller's (or a shared
     # default) object
@@ -292,7 +302,6 @@ def r1_decorator(program, rep):
                    "shared with the caller - e.g. the default "
                    "initial_context of every MachineController - and the "
                    "arguments of one controller leak into another")
-    rep.floor("C18-R1", 8)
 
 
 def _padding(TD, t, NAMES, SPEC):
